@@ -425,7 +425,27 @@ def correspond(ctx):
         ctx.dist(f'{s.name}:disagreements', len(bad))
     _state['disagreements'] = disagreements
     ctx.cov['programs'] = len(programs)
+    # core starts the failing-input search only when no failure has been recorded yet; the standing known finding
+    # (reported through ctx.fail by `mirror`) must not switch the search off for an unrelated broken obligation
+    if ctx.broken and ctx.failures and all(f.signature == KNOWN_MINUS_ONE for f in ctx.failures):
+        search(ctx)
 
+
+
+def bond_state_grid():
+    """(R, P) for every pair of states (order on the reactant side, order on the product side) over {absent, 1, 2, 3, 4, 8} of
+    the bond 1-2: alone (N, Cu: ligand association / dissociation) and next to an unchanged bond 2-3"""
+    orders = (None, 1, 2, 3, 4, 8)
+    for o in orders:
+        for p in orders:
+            for third in (False, True):
+                for z1, z2 in ((6, 6), (7, 29)):
+                    atoms = {1: [z1, None, 0, False], 2: [z2, None, 0, False]}
+                    rb, pb = ({(1, 2): o} if o else {}), ({(1, 2): p} if p else {})
+                    if third:
+                        atoms[3] = [8, None, 0, False]
+                        rb[(2, 3)] = pb[(2, 3)] = 1
+                    yield Raw(atoms, rb), Raw({n: list(a) for n, a in atoms.items()}, pb)
 
 
 def small_exhaustive(ctx, s_comp, s_exact):
@@ -452,6 +472,15 @@ def small_exhaustive(ctx, s_comp, s_exact):
                            nontrivial=bool(R.atoms or P.atoms))
                 n += 1
     ctx.dist('compose:small-exhaustive-3-atoms', n)
+    # every pair of bond states (all orders incl. aromatic 4 and coordinate 8, absent) on X-Y and on X-Y-Z next to an unchanged bond
+    m = 0
+    for R, P in bond_state_grid():
+        r, p = build(R, labels=False), build(P, labels=False)
+        real = outcome(lambda: r ^ p)
+        s_comp.add('compose ' + wire.mol_to_line(r) + ' ' + wire.mol_to_line(p), real if isinstance(real, str) else cgr_canon(real),
+                   {'grid': m})
+        m += 1
+    ctx.dist('compose:bond-state-grid-exhaustive', m)
 
 
 # ------------------------------------------------------------------------------------------------
@@ -902,6 +931,34 @@ def oracle_mapping_text(text, remap=False):
     if bad:
         return 'C15/mapping/reagent-overlap', f'smiles({text!r}): reagents share the numbers {sorted(bad)} with reactants / products'
     if remap:
+        # remap=True must be a CONSISTENT renumbering of the reaction read without it: one injective map for all roles,
+        # numbers 1..n without gaps, hence the same condensed graph
+        try:
+            r0 = smiles(text)
+        except Exception:
+            return None
+        f = {}
+        for m0, m1 in zip(r0.molecules(), r.molecules()):
+            if len(m0) != len(m1):
+                return 'C15/mapping/remap-atoms', f'smiles({text!r}, remap=True) has molecules of different size'
+            for a, b in zip(m0, m1):
+                if f.setdefault(a, b) != b:
+                    return ('C15/mapping/remap-inconsistent', f'smiles({text!r}, remap=True): atom {a} of the reaction read without '
+                            f'remap becomes {f[a]} in one role and {b} in another ({format(r0, "m")} -> {format(r, "m")})')
+        if len(set(f.values())) != len(f):
+            return 'C15/mapping/remap-not-injective', f'smiles({text!r}, remap=True) merges atom numbers: {f}'
+        if f and set(f.values()) != set(range(1, len(f) + 1)):
+            return 'C15/mapping/remap-gaps', f'smiles({text!r}, remap=True) leaves gaps: {sorted(f.values())}'
+        try:
+            h0 = ~r0
+        except ValueError:
+            return None
+        try:
+            h1 = ~r
+        except ValueError as e:
+            return 'C15/mapping/remap-cgr', f'smiles({text!r}, remap=True) cannot be composed: {e}'
+        if cgr_string_key(h0) != cgr_string_key(h1) or sorted(f[n] for n in h0.center_atoms) != sorted(h1.center_atoms):
+            return 'C15/mapping/remap-cgr', f'smiles({text!r}, remap=True) has condensed graph {h1} instead of {h0}'
         return None
     # written maps, from the text alone (a text without fragment block: molecule k of a role is its k-th piece)
     toks = text.split()
@@ -947,9 +1004,16 @@ def oracle_written_text(text):
     return None
 
 
+def text_from_maps(R, A, P):
+    """a reaction text whose parsed records carry exactly these map numbers (0 = unmapped)"""
+    def mol(ms):
+        return ''.join('[CH2:%d]' % m if m else 'C' for m in ms)
+    return '>'.join('.'.join(mol(m) for m in role if m) for role in (R, A, P))
+
+
 def gen_mapped_text(rng):
     """reaction text of small atom-mapped molecules; `clean`: a consistent complete mapping (must come back unchanged)"""
-    fl = rng.choice(('clean', 'clean', 'partial', 'dups', 'reagent-overlap', 'random', 'random'))
+    fl = rng.choice(('clean', 'clean', 'unbalanced', 'unbalanced', 'partial', 'dups', 'reagent-overlap', 'random', 'random'))
     def mol(ms):
         return ''.join('[%s:%d]' % (rng.choice(('CH2', 'NH', 'O', 'S')), m) if m else rng.choice(('C', 'N', 'O')) for m in ms)
     def cut(ms):
@@ -963,7 +1027,18 @@ def gen_mapped_text(rng):
     base = rng.sample(range(1, 12), n)
     R, P = list(base), rng.sample(base, n)
     A = rng.sample(range(12, 20), rng.choice((0, 0, 1, 2)))
-    if fl == 'partial':
+    if fl == 'unbalanced':
+        # leaving / incoming groups: one side lacks some numbers of the other (often the highest ones), gaps anywhere
+        base = sorted(rng.sample(range(1, 16), rng.randint(2, 7)))
+        cutp = rng.randint(1, len(base))
+        R, P = list(base), (base[:cutp] if rng.random() < 0.6 else rng.sample(base, cutp))
+        if rng.random() < 0.3:
+            R, P = P, R
+        if rng.random() < 0.3:
+            P = P + rng.sample(range(16, 22), rng.randint(1, 2))
+        A = rng.sample(range(12, 26), rng.choice((0, 0, 1, 2)))
+        A = [a for a in A if a not in R and a not in P]
+    elif fl == 'partial':
         R = [m if rng.random() < 0.6 else 0 for m in R]
         P = [m if rng.random() < 0.6 else 0 for m in P]
         A = [m if rng.random() < 0.5 else 0 for m in A]
@@ -998,7 +1073,7 @@ def radicals_and_mapping(ctx, rng, cases, s_rad, s_map, programs, written):
         if 'maps_in' in cap:
             mi, k = cap['maps_in'], cap['kw']
             s_map.add(mapfix_request(k.get('remap', False), k.get('ignore', True), mi['reactants'], mi['products'], mi['reagents']),
-                      mapfix_line(cap['maps_out']), dict(meta, text=text, via='smiles'))
+                      mapfix_line(cap['maps_out']), dict(meta, text=text, via='smiles', remap=bool(k.get('remap'))))
             ctx.dist('mapfix:via-smiles')
     for text in written:
         add_text(text, {'flavour': 'written'})
@@ -1016,10 +1091,10 @@ def radicals_and_mapping(ctx, rng, cases, s_rad, s_map, programs, written):
         kw = rng.choice(({}, {}, {'remap': True}, {'ignore': False}, {'remap': True, 'ignore': False}))
         add_text(text, {'flavour': 'mapped/' + fl}, **kw)
         ctx.dist('mapfix:text=' + fl)
-        res = oracle_mapping_text(text, remap=bool(kw.get('remap'))) if kw.get('ignore', True) else None
+        res = oracle_mapping_text(text, remap=False) or oracle_mapping_text(text, remap=True)
         ctx.count(('relational', 'mapping-text', i))
         if res:
-            ctx.fail(res[0], res[1], {'kind': 'mapping-text', 'text': text, 'remap': bool(kw.get('remap'))})
+            ctx.fail(res[0], res[1], {'kind': 'mapping-text', 'text': text, 'remap': 'remap' in res[0]})
         if fl == 'clean' and i < 2:
             ctx.sample({'stream': 'mapfix', 'text': text})
     # direct calls: generated records
@@ -1059,7 +1134,7 @@ def radicals_and_mapping(ctx, rng, cases, s_rad, s_map, programs, written):
         remap, ignore = rng.random() < 0.4, rng.random() < 0.75
         R, P, A = roles
         s_map.add(mapfix_request(remap, ignore, R, P, A), mapfix_line(mapfix_real(remap, ignore, R, P, A, rng)),
-                  {'flavour': fl, 'via': 'direct'})
+                  {'flavour': fl, 'via': 'direct', 'text': text_from_maps(R, A, P), 'remap': remap})
         ctx.dist('mapfix:' + fl)
     # direct calls: every record with one molecule of <= 2 atoms per role over a small alphabet (with a gap), all options
     alphabet = (0, 1, 3) if ctx.quick else (0, 1, 2, 4)
@@ -1072,7 +1147,8 @@ def radicals_and_mapping(ctx, rng, cases, s_rad, s_map, programs, written):
                     for ignore in (True, False):
                         R, P, A = ([r] if r else []), ([p] if p else []), ([a] if a else [])
                         s_map.add(mapfix_request(remap, ignore, R, P, A), mapfix_line(mapfix_real(remap, ignore, R, P, A)),
-                                  {'flavour': 'exhaustive', 'via': 'direct'}, nontrivial=bool(r or p or a))
+                                  {'flavour': 'exhaustive', 'via': 'direct', 'text': text_from_maps(R, A, P), 'remap': remap},
+                                  nontrivial=bool(r or p or a))
                         n += 1
     ctx.dist('mapfix:small-exhaustive', n)
     programs.update(('smiles() radical block', 're.findall(cx_radicals)', 'postprocess_parsed_reaction'))
@@ -1734,10 +1810,11 @@ def search(ctx):
     # texts on which the reader model and the reader disagreed: is the written role partition restored?
     for name, b in _state.get('disagreements', []):
         if name in ('mapfix', 'readrad') and b[3].get('text'):
-            res = oracle_mapping_text(b[3]['text'])
-            if res:
-                ctx.fail(res[0], res[1], {'kind': 'mapping-text', 'text': b[3]['text'], 'remap': False})
-                return
+            for rm in dict.fromkeys((bool(b[3].get('remap')), False, True)):
+                res = oracle_mapping_text(b[3]['text'], remap=rm)
+                if res:
+                    ctx.fail(res[0], res[1], {'kind': 'mapping-text', 'text': b[3]['text'], 'remap': rm})
+                    return
         if name == 'readrad' and b[3].get('flavour') == 'written':
             res = oracle_written_text(b[3]['text'])
             if res:
@@ -1752,6 +1829,11 @@ def search(ctx):
     if res:
         ctx.fail(res[0], res[1], res[2])
         return
+    for R, P in bond_state_grid():
+        res = oracle_compose(R, P)
+        if res:
+            ctx.fail(res[0], res[1], {'kind': 'compose', 'R': raw_json(R), 'P': raw_json(P)})
+            return
     for kind, a, b in [('bond', a, b) for a in BOND_STATES for b in BOND_STATES if a != b]:
         res = oracle_mirror(kind, a, b)
         if res:
